@@ -47,7 +47,7 @@ claim("C13",
       "go/cfg edge-fact guards on append calls + value provenance of the range expression + SQL-fragment predicate check + who-may-call with embedded positive control",
       "DESIGN.md §3 C13")
 claim("C14",
-      "Decides the seek algebra (offset enters every whence arm with coefficient +1; success returns yield the computed target, never a byte count), access gating of the read and write paths by the open flags, exclusive consumption of O_TRUNC/O_APPEND in enterWriteMode, and flush-before-discard on close. Byte/offset equality with a reference file is not decided. Also: the first write decides from a fresh index lookup, no value read from the streaming reader is used after the reader may have been replaced, and write-cache Size() is a pure query of the underlying object.",
+      "Decides the seek algebra (offset enters every whence arm with coefficient +1; success returns yield the computed target, never a byte count), access gating of the read and write paths by the open flags, exclusive consumption of O_TRUNC/O_APPEND in enterWriteMode, and flush-before-discard on close. Byte/offset equality with a reference file is not decided. Also: the first write decides from a fresh index lookup, no value read from the streaming reader is used after the reader may have been replaced, and write-cache Size() is a pure query of the underlying object; Read replaces the streaming reader only when none is open, and the flush depends on nothing but the cache existing.",
       "linear normalisation of switch-arm expressions (sibling agreement) + go/cfg edge-fact guards + success-edge domination",
       "DESIGN.md §3 C14")
 claim("C16",
@@ -59,7 +59,7 @@ claim("C17",
       "go/cfg must-dataflow taint discipline (sanitise-before-use) + literal-set agreement between sibling functions",
       "DESIGN.md §3 C17")
 claim("C18",
-      "Decides table agreement per format key: the type each Parse* arm produces is identical to the type the matching Encrypt/Decrypt/Sign/Verify arm asserts, each generator/parser arm hands the password to a key-wrapping call of the crypto module, and conditional wrapping is matched by conditional unwrapping. Rejection of wrong passwords/keys is left to the crypto libraries. Also: every success path of an identity parser used the password or established it is empty, and key bytes reach the crypto module unmodified.",
+      "Decides table agreement per format key: the type each Parse* arm produces is identical to the type the matching Encrypt/Decrypt/Sign/Verify arm asserts, each generator/parser arm hands the password to a key-wrapping call of the crypto module, and conditional wrapping is matched by conditional unwrapping. Rejection of wrong passwords/keys is left to the crypto libraries. Also: every success path of an identity parser used the password or established it is empty, and key bytes reach the crypto module unmodified; the verify functions fail closed and the key/crypto packages keep no package-level state.",
       "switch-arm sibling agreement with types.Identical on produced vs asserted types + parameter-to-crypto-call flow per arm",
       "DESIGN.md §3 C18")
 
